@@ -85,11 +85,20 @@ def main():
         sh(f"rm -f /tmp/sv_{a.sid}.xml /tmp/sv_{a.sid}.xml.rerun")
     ok = res.get("demo_clean_rc") == 0 and res.get("demo_patched_rc", 0) != 0 and (a.skip_tests or res.get("tests_rc") == 0)
     res["valid_seed"] = ok
-    res["caught_by"] = [c for c, r in res["checks"].items() if r["rc"] == 1 and any(x.startswith("VIOLATION") for x in r["lines"])]
+    res["caught_by"] = [c for c, r in res["checks"].items() if r["rc"] == 1 and any(x.startswith("VIOLATION") for x in r["lines"])
+                        and any(d["component"] != "prove:lake-build" for d in r["detail"])]
+    res["caught_with_failing_input"] = [c for c, r in res["checks"].items() if any(d["failing_input_found"] for d in r["detail"])]
     dst = VERIF / "seeded" / a.sid
     dst.mkdir(parents=True, exist_ok=True)
-    shutil.copy(src / "patch.diff", dst / "patch.diff")
-    shutil.copy(src / "demo.py", dst / "demo.py")
+    if src.resolve() != dst.resolve():
+        shutil.copy(src / "patch.diff", dst / "patch.diff")
+        shutil.copy(src / "demo.py", dst / "demo.py")
+    old = meta.get("validation", {})
+    for k in ("tests_rc", "tests_summary", "tests_repo_head"):      # keep an earlier confirmed suite run
+        if k in old and k not in res:
+            res[k] = old[k]
+    if a.skip_tests and "tests_rc" in res:
+        res["valid_seed"] = res.get("demo_clean_rc") == 0 and res.get("demo_patched_rc", 0) != 0 and res["tests_rc"] == 0
     meta["validation"] = res
     (dst / "meta.json").write_text(json.dumps(meta, indent=1))
     print(json.dumps({"sid": a.sid, "valid_seed": ok, "caught_by": res["caught_by"], "checks": {c: (r["rc"], r["lines"][:2]) for c, r in res["checks"].items()},
